@@ -40,7 +40,6 @@ use dmntk_feel::values::{Value, Values, VALUE_FALSE, VALUE_TRUE};
 use dmntk_feel::{value_null, FeelDate, FeelDateTime, FeelDaysAndTimeDuration, FeelNumber, FeelTime, FeelYearsAndMonthsDuration, Name, Scope, ToFeelString};
 use regex::Regex;
 use std::borrow::Borrow;
-use std::cmp::Ordering;
 use std::convert::TryFrom;
 
 /// Builds null value with invalid argument type message.
@@ -915,23 +914,40 @@ pub fn sort(list: &Value, ordering_function: &Value) -> Value {
   if let Value::List(items) = list.clone() {
     if let Value::FunctionDefinition(parameters, body, _) = ordering_function {
       if parameters.len() == 2 {
-        let mut elements = items.as_vec().clone();
-        elements.sort_by(|x, y| {
+        let precedes = |x: &Value, y: &Value| -> bool {
           let mut ctx = FeelContext::default();
           ctx.set_entry(&parameters[0].0, x.clone());
           ctx.set_entry(&parameters[1].0, y.clone());
           let scope: Scope = ctx.into();
-          if let Value::Boolean(result) = body.evaluate(&scope) {
-            if result {
-              Ordering::Less
+          matches!(body.evaluate(&scope), Value::Boolean(true))
+        };
+        // stable merge sort driven by the ordering function alone: the function is provided by the user
+        // and need not be an ordering (the sorting routines of the standard library panic when it is not)
+        let mut runs: Vec<Vec<Value>> = items.as_vec().iter().map(|item| vec![item.clone()]).collect();
+        while runs.len() > 1 {
+          let mut merged_runs = Vec::with_capacity((runs.len() + 1) / 2);
+          let mut iter = runs.into_iter();
+          while let Some(left) = iter.next() {
+            if let Some(right) = iter.next() {
+              let mut merged = Vec::with_capacity(left.len() + right.len());
+              let (mut left, mut right) = (left.into_iter().peekable(), right.into_iter().peekable());
+              while let (Some(l), Some(r)) = (left.peek(), right.peek()) {
+                if precedes(r, l) {
+                  merged.extend(right.next());
+                } else {
+                  merged.extend(left.next());
+                }
+              }
+              merged.extend(left);
+              merged.extend(right);
+              merged_runs.push(merged);
             } else {
-              Ordering::Equal
+              merged_runs.push(left);
             }
-          } else {
-            Ordering::Equal
           }
-        });
-        Value::List(Values::new(elements))
+          runs = merged_runs;
+        }
+        Value::List(Values::new(runs.pop().unwrap_or_default()))
       } else {
         value_null!("sort: ordering function should take exactly two arguments")
       }
